@@ -105,11 +105,11 @@ class P(Prop):
     thorough_cases = 50000
     chunk = 100
     rule = (
-        "one case = 1-3 FASTA files of 1-5 records (sequences of 0-30 residues built from a shared pool of pieces over a "
+        "one case = 1-3 FASTA files of 1-5 records (sequences of 2-31 residues, 1% empty, built from a shared pool of 2-5 pieces over a "
         "per-enzyme 5-letter alphabet so that proteins share peptides; identifiers P<i> / sp|Q<i>|N<i>_X with and without "
         "GN=; wrapping width 1-60, blank lines, trailing blanks, CRLF, missing final newline; 4% malformed: bare '>' lines, "
         "'> x' headers, text before the first header) x 1-3 DigestionParams (enzyme of the table, full/semi/none, window, "
-        "budget, special residues KR/K/none, fasta_contains_decoys) x identifier rule x lookups x iBAQ x map-file round trip; "
+        "budget, special residues KR/K/KRM/none, fasta_contains_decoys) x identifier rule x lookups x per-parameter-set maps x iBAQ x map-file round trip; "
         "25% direct get_peptide_to_protein_map calls incl. db=decoy; non-trivial = a non-empty map with a peptide listed by "
         ">= 2 proteins or a decoy; distinct by sha1 of the case"
     )
